@@ -352,7 +352,7 @@ def check_C10(F, tier, t0):
     guarded(R, 'X1', engine_x.rule_X1_printers, F, R)
     guarded(R, 'X2', engine_x.rule_X2, F, R, ('table',))
     guarded(R, 'X3', engine_x.rule_X3, F, R)
-    guarded(R, 'X4', engine_x.rule_X4, F, R, ('parse', 'model', 'retain', 'vars'))
+    guarded(R, 'X4', engine_x.rule_X4, F, R, ('parse', 'model', 'retain', 'vars', 'tablefilter'))
     # the header is free_vars: it is right only if the free-variable analysis is
     E = make_engine(F)
     guarded(R, 'S var_is_free', run_S, R, E, [FRF], spec_bdd.B, False)
@@ -495,6 +495,7 @@ def check_C14(F, tier, t0):
     guarded(R, 'X2', engine_x.rule_X2, F, R, ('dot',))
     guarded(R, 'S helper predicates', run_S, R, make_engine(F), spec_bdd.HELPER_FNS, spec_bdd.B, False)
     guarded(R, 'X6', engine_x.rule_X6, F, R)
+    guarded(R, 'X4 dot filter', engine_x.rule_X4, F, R, ('dotfilter',))
     R.floor('X1:edge-tuples', 2); R.floor('X2:dot-leaf-cases', 6); R.floor('X2:dot-edge-cases', 18); R.floor('X6:variants', 12); R.floor('X6:recursive-fields', 11)
     return finish(R, 'other', tier, t0,
         'Sibling-agreement clauses: T/F edge flags and labels follow the true/false branch; leaf ids and labels sit on the matching variants; for every filter x child kind an '
